@@ -84,6 +84,9 @@ impl Peer {
             }
             _ => (),
         }
+
+        // Peer drops all requests when he chokes, so nothing is assigned to him any more
+        self.piece_index = None;
     }
 
     pub fn handle_unchoke(
@@ -92,6 +95,11 @@ impl Peer {
         pieces_status: &mut Vec<Status>,
         metainfo: &Metainfo,
     ) -> UnchokeCmd {
+        // Repeated Unchoke, peer is already asked for a piece and nothing changes
+        if !self.choked && self.piece_index.is_some() {
+            return UnchokeCmd::Ignore;
+        }
+
         let cmd = match chosen_index {
             Some(chosen_index) => {
                 pieces_status[chosen_index] = match pieces_status[chosen_index] {
@@ -216,6 +224,11 @@ impl Peer {
         metainfo: &Metainfo,
     ) -> PieceCmd {
         match chosen_index {
+            // Nothing can be requested from peer who chokes us, piece will be assigned on Unchoke
+            Some(_) if self.choked => {
+                self.piece_index = None;
+                PieceCmd::Ignore
+            }
             Some(chosen_index) => {
                 pieces_status[chosen_index] = match pieces_status[chosen_index] {
                     Status::Reserved(peers_count) => Status::Reserved(peers_count + 1),
@@ -224,10 +237,7 @@ impl Peer {
                 };
 
                 self.piece_index = Some(chosen_index);
-                match self.choked {
-                    true => PieceCmd::Ignore,
-                    false => PieceCmd::SendRequest(req_data(&metainfo, chosen_index)),
-                }
+                PieceCmd::SendRequest(req_data(&metainfo, chosen_index))
             }
             None => {
                 self.piece_index = None;
